@@ -154,6 +154,23 @@ func (e *Engine) initSummaries(fs []*ssa.Function) {
 				pi := pi
 				if bits, uns := intWidthOK(p.Type()); bits && !uns {
 					addP(fmt.Sprintf("p%d>=0", pi), func(e callEnv) Lin { return le(konst(0), e.arg(pi)) })
+					// below the length of every fixed-size array the callee indexes
+					arrs := map[int64]bool{}
+					for _, b := range f.Blocks {
+						for _, in := range b.Instrs {
+							if ia, ok := in.(*ssa.IndexAddr); ok {
+								if pt, ok := ia.X.Type().Underlying().(*types.Pointer); ok {
+									if at, ok := pt.Elem().Underlying().(*types.Array); ok {
+										arrs[at.Len()] = true
+									}
+								}
+							}
+						}
+					}
+					for k := range arrs {
+						k := k
+						addP(fmt.Sprintf("p%d<%d", pi, k), func(e callEnv) Lin { return lt(e.arg(pi), konst(k)) })
+					}
 					for pj, q := range f.Params {
 						pj := pj
 						if isSliceOrStr(q.Type()) {
@@ -172,6 +189,27 @@ func (e *Engine) initSummaries(fs []*ssa.Function) {
 		}
 		e.sums[f] = sum
 	}
+}
+
+// onlyCalled: every use of the closure value is as the callee of a plain call.
+func onlyCalled(mc *ssa.MakeClosure) bool {
+	for _, ref := range *mc.Referrers() {
+		switch x := ref.(type) {
+		case *ssa.Call:
+			if x.Call.Value != ssa.Value(mc) {
+				return false
+			}
+			for _, a := range x.Call.Args {
+				if a == ssa.Value(mc) {
+					return false
+				}
+			}
+		case *ssa.DebugRef:
+		default:
+			return false
+		}
+	}
+	return true
 }
 
 // intWidthOK: t is a full-width integer type (int, int64, uint, uint64) whose arithmetic the linear forms model.
@@ -201,7 +239,8 @@ func (e *Engine) knownCallers(f *ssa.Function) bool {
 	}
 	obj := f.Object()
 	if obj == nil {
-		return false // anonymous function
+		// anonymous function: its closures are only ever called directly (valueUse is false)
+		return f.Parent() != nil
 	}
 	if obj.Exported() {
 		return false
@@ -538,6 +577,9 @@ func Run(prog *ssa.Program, inMod func(*ssa.Function) bool) *Result {
 					if g, ok := (*op).(*ssa.Function); ok {
 						if c, isCall := in.(*ssa.Call); isCall && c.Call.Value == ssa.Value(g) {
 							continue
+						}
+						if mc, isMC := in.(*ssa.MakeClosure); isMC && mc.Fn == ssa.Value(g) && onlyCalled(mc) {
+							continue // a closure that is only called, never stored or passed
 						}
 						e.valueUse[g] = true
 					}
